@@ -17,7 +17,16 @@ func (vc *VC) call(c *ssa.CallCommon, res *ssa.Call, pos token.Pos) SVal {
 	}
 	if c.IsInvoke() {
 		recv := vc.val(c.Value)
-		key := "(" + typeString(c.Value.Type()) + ")." + c.Method.Name()
+		rtyp := c.Value.Type()
+		if nt, ok := types.Unalias(rtyp).(*types.Named); ok && nt.TypeArgs() != nil && nt.TypeArgs().Len() > 0 {
+			rtyp = nt.Origin() // contracts of generic interfaces are keyed by the uninstantiated type
+		}
+		key := "(" + typeString(rtyp) + ")." + c.Method.Name()
+		if i := strings.Index(key, "["); i >= 0 {
+			if j := strings.LastIndex(key, "]"); j > i {
+				key = key[:i] + key[j+1:]
+			}
+		}
 		con := vc.eng.contracts.M[key]
 		args := []SVal{recv}
 		names := []string{"recv"}
@@ -82,10 +91,10 @@ func (vc *VC) call(c *ssa.CallCommon, res *ssa.Call, pos token.Pos) SVal {
 func typeString(T types.Type) string { return types.TypeString(T, nil) }
 
 func (vc *VC) havocAll() {
-	for k, leaf := range vc.keySort {
+	for k := range vc.keySort {
 		vc.checkLoopStore(k, "*")
-		vc.curMem.m[k] = vc.declMem(vc.sym("Mhv_"+k), k, leaf, true)
 	}
+	vc.havocPrefix(vc.curMem, "") // every memory, including keys not touched so far
 	vc.havocked = true
 }
 
@@ -141,6 +150,11 @@ func (vc *VC) applyContract(con *Contract, key string, names []string, args []SV
 	// modifies
 	for _, m := range con.Mods {
 		if m.Loop != 0 {
+			continue
+		}
+		if p, wild := isWildKey(m.Key); wild {
+			vc.checkLoopStore(p, "*")
+			vc.havocPrefix(vc.curMem, p)
 			continue
 		}
 		leaf, ok := vc.keySort[m.Key]
